@@ -205,8 +205,8 @@ theorem disconnect_event_emitted_exactly_when : type_of% @C16srv.disconnect_even
 theorem signalled_only_by_reconnect : type_of% @C16srv.signalled_only_by_reconnect := @C16srv.signalled_only_by_reconnect
 theorem will_delay_spec : type_of% @C16srv.will_delay_spec := @C16srv.will_delay_spec
 theorem timeout_exactly_at_deadline : type_of% @C16srv.timeout_exactly_at_deadline := @C16srv.timeout_exactly_at_deadline
-theorem stale_handler_poisons_listener : type_of% @C16srv.stale_handler_poisons_listener := @C16srv.stale_handler_poisons_listener
-theorem every_ended_link_resolves_properly_fails : type_of% @C16srv.every_ended_link_resolves_properly_fails := @C16srv.every_ended_link_resolves_properly_fails
-theorem every_ended_link_resolves_properly_partial : type_of% @C16srv.every_ended_link_resolves_properly_partial := @C16srv.every_ended_link_resolves_properly_partial
+theorem every_ended_link_resolves_properly : type_of% @C16srv.every_ended_link_resolves_properly := @C16srv.every_ended_link_resolves_properly
+theorem refused_link_leaves_no_handler : type_of% @C16srv.refused_link_leaves_no_handler := @C16srv.refused_link_leaves_no_handler
+theorem stale_handler_is_harmless : type_of% @C16srv.stale_handler_is_harmless := @C16srv.stale_handler_is_harmless
 
 end C16
